@@ -444,7 +444,8 @@ def _main(args, prop, seed):
 
     # 2. regression replays (shrunk cases of earlier / fixed violations)
     n_replays = 0
-    for path in sorted(glob.glob(os.path.join(ROOT, "replays", prop, "*.json"))):
+    for path in ([] if os.environ.get("WV_SKIP_REPLAYS") else   # (dev aid for tools/mkreplay.py only)
+                 sorted(glob.glob(os.path.join(ROOT, "replays", prop, "*.json")))):
         n_replays += 1
         new, old = replay_file(mod, path, known)
         if new:
@@ -545,7 +546,7 @@ def _main(args, prop, seed):
     if args.sub or args.examples:
         print(json.dumps(cov["classes"], indent=0)[:3000])
     if merged.collected:
-        cdir = os.path.join(ROOT, ".work", "collect", prop)
+        cdir = os.environ.get("WV_COLLECT_DIR") or os.path.join(ROOT, ".work", "collect", prop)
         shutil.rmtree(cdir, ignore_errors=True)
         os.makedirs(cdir, exist_ok=True)
         for i, (sig, (size, fnd, cnt)) in enumerate(sorted(merged.collected.items(), key=lambda kv: -kv[1][2])):
